@@ -99,7 +99,7 @@ func TestC07(t *testing.T) {
 		dst := rapid.SampledFrom([]string{"n1", "n2", in.Cols[0].Name, in.Cols[len(in.Cols)-1].Name, "n1", "unary-temp-0", "const-temp-1"}).Draw(t, "dst")
 		badDst := false
 		if rapid.IntRange(0, 19).Draw(t, "baddst") == 0 {
-			dst = rapid.SampledFrom([]string{"", "'q'", "\"q\"", "$v", "'q\nq'", "\"\n\""}).Draw(t, "illegaldst")
+			dst = rapid.SampledFrom([]string{"", "'q'", "\"q\"", "$v", "$", "'q\nq'", "\"\n\""}).Draw(t, "illegaldst")
 			badDst = true
 		}
 		desc := func() string {
